@@ -126,7 +126,7 @@ def py_proof(run, prop, args):
         for x in o:
             x.name = "py:" + x.name
         obs.extend(o)
-    res = smt.solve_all(obs)
+    res = smt.solve_all_batched(obs)
     run.add_results(res)
     run.notes["python_serializers_not_under_contract" if prop == "C01" else "python_deserializers_not_under_contract"] = outside
     run.assume("py: contracts of the Serializer/Deserializer primitives (proved under C14 for every bit length and cursor position); ASSUMED contracts of the NumPy/struct based primitives "
